@@ -147,7 +147,7 @@ package types
 
 // store keys are immutable names (ASSUMED for implementations outside this package)
 //@ iface func (k StoreKey) Name() (r string)
-//@   ensures true
+//@   ensures r == sk_name(k)
 //@ iface func (k StoreKey) String() (r string)
 //@   ensures true
 
